@@ -132,6 +132,38 @@ class FakePlayer:
         self.played.append(bytes(data))
 
 
+def make_logger(out, sched):
+    """A logger for the tokenizer worker (what --debug gives it): every record it emits is kept and
+    is a yield point, so other threads may run while the tokenizer is inside a log call."""
+    import logging
+
+    class _H(logging.Handler):
+        def createLock(self):
+            self.lock = None  # single producer; the harness scheduler must not meet a held lock
+
+        def emit(self, record):
+            out.log_lines.append(record.getMessage())
+            if sched is not None:
+                sched.yield_point("log")
+
+    logger = logging.Logger(f"vf-pipeline-{_ctr[0]}", logging.DEBUG)
+    logger.addHandler(_H())
+    return logger
+
+
+def reader_options(case, endless=False):
+    """-> (hop in samples or None, max_read seconds or None, visible samples or None)"""
+    rec = case["audio"]
+    B, sr = rec["B"], rec["sr"]
+    hop = B // 2 if case.get("overlap") and B % 2 == 0 and not case.get("saver") else None
+    mr = vis = None
+    if case.get("mr") is not None and not endless:
+        from .props.c10 import resolve_max_read
+
+        mr, vis = resolve_max_read({"mr": case["mr"], "sr": sr})
+    return hop, mr, vis
+
+
 def split_kwargs(case):
     rec, win = case["audio"], case["win"]
     w = rec["B"] / rec["sr"]  # the tokenizer worker is an AudioReader: window = block duration
@@ -145,8 +177,10 @@ def expected_detections(data, case, thr):
     no threads).  -> [(id, bytes, start, end)]"""
     rec = case["audio"]
     aw = audio.window_arg(rec["B"], rec["sr"])
+    hop, _mr, _vis = reader_options(case)  # (max_read: the caller passes the visible part of the data)
+    extra = {} if hop is None else {"hop_dur": hop / rec["sr"]}
     reader = auditok.AudioReader(data, block_dur=aw, sampling_rate=rec["sr"], sample_width=rec["sw"],
-                                 channels=rec["ch"])
+                                 channels=rec["ch"], **extra)
     regs = auditok.split(reader, energy_threshold=thr, use_channel=rec.get("uc"), **split_kwargs(case))
     return [(i, bytes(r), r.start, r.end) for i, r in enumerate(regs, 1)]
 
@@ -188,6 +222,16 @@ def _make_source(case, data, d, sched, jitter, endless):
     return src
 
 
+def _stale_wav(path, sr, sw, ch):
+    """a file left behind by an interrupted earlier run, under the name a saver would use for its
+    temporary wav"""
+    with wave.open(path, "wb") as fp:
+        fp.setframerate(sr)
+        fp.setsampwidth(sw)
+        fp.setnchannels(ch)
+        fp.writeframes(b"\x55" * (sw * ch * 5))
+
+
 def _build(out, case, d, sched, jitter, endless):
     """Create source, reader, optional saver, observers and tokenizer of one pipeline in `out`."""
     rec = case["audio"]
@@ -198,7 +242,14 @@ def _build(out, case, d, sched, jitter, endless):
     out.data, out.thr = data, thr
     out.sched = sched
     src = _make_source(case, data, d, sched, jitter, endless)
-    reader = auditok.AudioReader(src, block_dur=aw)
+    hop, mr, vis = reader_options(case, endless)
+    rkw = {}
+    if hop is not None:
+        rkw["hop_dur"] = hop / sr  # overlapping analysis windows
+    if mr is not None:
+        rkw["max_read"] = mr
+        out.data = data[: vis * sw * ch]  # what a run to the end can see
+    reader = auditok.AudioReader(src, block_dur=aw, **rkw)
     out.src = src
     saver = None
     top = reader
@@ -211,7 +262,9 @@ def _build(out, case, d, sched, jitter, endless):
         out.saver_path = os.path.join(d, stem + ext)
         out.saver_arg = (stem + ext) if case.get("relative") else out.saver_path
         out.saver_ext = ext
-        out.ignore_files |= {out.saver_path, out.saver_path + ".wav"}
+        out.ignore_files |= {out.saver_path, out.saver_path + ".wav", out.saver_path + "(1).wav"}
+        if case.get("stale_tmp") and ext != ".wav":
+            _stale_wav(out.saver_path + ".wav", sr, sw, ch)
         saver = W.StreamSaverWorker(reader, out.saver_arg, cache_size_sec=case["saver"]["cache"])
         top = saver
         out.wf_calls = []
@@ -257,7 +310,9 @@ def _build(out, case, d, sched, jitter, endless):
             jstem = f"joined{_ctr[0]}"
             out.joiner_path = os.path.join(d, jstem + jext)
             out.joiner_ext = jext
-            out.ignore_files |= {out.joiner_path, out.joiner_path + ".wav"}
+            out.ignore_files |= {out.joiner_path, out.joiner_path + ".wav", out.joiner_path + "(1).wav"}
+            if case.get("stale_tmp") and jext != ".wav":
+                _stale_wav(out.joiner_path + ".wav", sr, sw, ch)
             o = W.AudioEventsJoinerWorker(out.join_sil, (jstem + jext) if case.get("relative") else out.joiner_path,
                                           None, sr, sw, ch)
             out.joiner = o
@@ -274,6 +329,9 @@ def _build(out, case, d, sched, jitter, endless):
     else:
         tkw[spell.get("eth", "energy_threshold")] = thr
         tkw[spell.get("uc", "use_channel")] = rec.get("uc")
+    out.log_lines = []
+    if case.get("logger"):
+        tkw["logger"] = make_logger(out, sched)
     tokenizer = W.TokenizerWorker(proxy, observers, **tkw, **split_kwargs(case))
     out.tokenizer = tokenizer
     out.observers = observers
